@@ -54,6 +54,8 @@ structure DState where
   implResp : List String := []
   /-- nodes of the reply given in this operation -/
   pendingReply : Option (List Nat) := none
+  /-- the reply given in this operation is an `ADD_PROVIDER` message (key 1, the replying peer as provider) -/
+  replyAddprov : Bool := false
   provQuorum : List (Nat × Quorum) := []
   -- executor box
   execMode : Bool := false
@@ -307,6 +309,12 @@ def applyRes (d : DState) (tok : String) : DState :=
           { d1 with pendingReply := none
                     outEv := d1.outEv ++ ["inc:rtu:" ++ natList ns]
                     sv := Kad.Serve.learn d1.cfg d1.sv (ns.map fun n => (n, kindOf d1 n != 'n')) }
+        | .readOk, _, none =>
+          -- an `ADD_PROVIDER` message in place of a response fails the request and is handled like any announcement
+          if d1.replyAddprov then
+            { d1 with replyAddprov := false, sv := Kad.Serve.putProvider d1.sv 1 p
+                      outEv := d1.outEv ++ ["inc:provider:1:" ++ toString p] }
+          else d1
         | _, _, _ => d1
       | none => fail d ("!no-such-future:" ++ tok)
     | _, _, _ => fail d ("!bad-token:" ++ tok)
@@ -523,7 +531,8 @@ def primitive (d : DState) (ts0 : List String) : Option (DState × String) :=
           let plain := !(rest.contains "garbage" || rest.contains "addprov")
           let nodes := ((rest.find? (fun a => a.startsWith "nodes=")).bind (fun a => peers? (a.drop 6).toString)).getD []
           some ({ d with waiting := d.waiting.filter (fun x => x.1 != sid)
-                         pendingReply := if plain then some nodes else none }, "sid=" ++ toString sid)
+                         pendingReply := if plain then some nodes else none
+                         replyAddprov := rest.contains "addprov" }, "sid=" ++ toString sid)
   | ["close", k] =>
     match idx? k with
     | none => none
@@ -556,7 +565,7 @@ def primitive (d : DState) (ts0 : List String) : Option (DState × String) :=
 def runPrimitive (d : DState) (ts : List String) (obs : String) : Option (DState × String) :=
   let sidBefore := d.m.nextSid
   let toks := tokens ((obs.splitOn " # ").headD "")
-  match primitive { d with outRx := [], outEv := [], dialCmds := [], err := none, outResp := [], pendingReply := none
+  match primitive { d with outRx := [], outEv := [], dialCmds := [], err := none, outResp := [], pendingReply := none, replyAddprov := false
                            implResp := toks.filter (fun t => t.startsWith "resp:") } ts with
   | none => none
   | some (d1, head) =>
